@@ -341,7 +341,12 @@ void run_scan(int tid, const Op& op, Event*& ev_out) {
   ev_out = &e;
 }
 
+std::array<std::unique_ptr<unodb::qsbr_per_thread>, vsched::Scheduler::kMaxThreads> g_qsbr_instances;
+vsched::Pool g_pool;
+
 void worker_main(int tid) {
+  // the child half of unodb::qsbr_thread: adopt the instance the parent made
+  unodb::qsbr_per_thread::current_thread_instance = std::move(g_qsbr_instances[static_cast<std::size_t>(tid)]);
   g_sched.worker_enter(tid);
   const auto& prog = H.sc.threads[static_cast<std::size_t>(tid)];
   for (std::size_t i = 0; i < prog.size(); ++i) {
@@ -706,6 +711,7 @@ void post_execution_checks(const Content& init) {
     id += ";";
   }
   for (const auto& kv : final_content) id += tw::hex(kv.second.substr(0, 2));
+  if (overlap) id += "|overlap";
   if (H.outcomes.insert(id).second) {
     if (overlap) ++H.overlapping_outcomes;
     if (H.sample_logs.size() < 3 && overlap) H.sample_logs.push_back(vsched::choices_to_string(g_sched.trace) + " => " + oc);
@@ -798,13 +804,13 @@ bool run_one(const std::vector<std::uint8_t>& prefix, const std::vector<vsched::
     }
   }
   g_sched.begin_execution(n, &prefix, &expected);
-  std::vector<unodb::qsbr_thread> threads;
-  threads.reserve(static_cast<std::size_t>(n));
-  for (int i = 0; i < n; ++i) threads.emplace_back(worker_main, i);
+  // what unodb::qsbr_thread does: the parent registers the new thread
+  for (int i = 0; i < n; ++i) g_qsbr_instances[static_cast<std::size_t>(i)] = std::make_unique<unodb::qsbr_per_thread>();
+  g_pool.dispatch(n);
   unodb::this_thread().qsbr_pause();
   H.concurrent_phase = true;
   g_sched.run();
-  for (auto& th : threads) th.join();
+  g_pool.wait_idle(n);
   H.concurrent_phase = false;
   H.total_frees_in_concurrent_phase += H.frees_in_concurrent_phase;
   unodb::this_thread().qsbr_resume();
@@ -886,6 +892,7 @@ int main(int argc, char** argv) {
   g_node_sizes[4] = sizeof(unodb::detail::olc_inode_256<std::uint64_t, unodb::value_view>);
   g_sched.cb = &H;
   g_sched.on_invoke = stamp_invoke;
+  g_pool.body = worker_main;
 
   vsched::ExploreStats st;
   if (have_replay) {
